@@ -36,7 +36,7 @@ static VResult g_fail_result;
 
 struct Stats {
   uint64_t evaluations = 0, shrink_evals = 0, discards = 0, nontrivial = 0;
-  uint64_t sub_evals = 0, sub_nontrivial = 0, excluded = 0;
+  uint64_t sub_evals = 0, sub_nontrivial = 0, excluded = 0, wall_timeouts = 0;
   uint64_t class_counts[V_NCLASS] = {0};
   std::unordered_set<uint64_t> distinct;
   std::vector<std::string> samples;
@@ -104,6 +104,9 @@ static void run_case (const std::vector<uint32_t> &stream)
       /* the harness declared that a crash in this stage belongs to another property (e.g. the first compile of C17 is
          C05's business): counted as excluded, not as a pass of anything */
       R->verdict = V_PASS; R->nontrivial = 0; R->excluded++;
+    } else if (WIFSIGNALED (st) && WTERMSIG (st) == SIGALRM) {
+      /* wall-clock limit (machine load): inconclusive, never a violation; non-termination is judged by the CPU-time limit (SIGXCPU) */
+      R->verdict = V_DISCARD; R->nontrivial = 0; S.wall_timeouts++;
     } else if (WIFSIGNALED (st)) {
       char sig[V_SIG_MAX];
       snprintf (sig, sizeof sig, "crash:%s:%s", signame (WTERMSIG (st)), R->stage);
@@ -187,6 +190,7 @@ static void write_stats (const char *path, const char *mode, double wall, uint64
   fprintf (f, " \"evaluations\": %llu, \"shrink_evaluations\": %llu, \"discards\": %llu, \"nontrivial\": %llu,\n",
       (unsigned long long) S.evaluations, (unsigned long long) S.shrink_evals, (unsigned long long) S.discards,
       (unsigned long long) S.nontrivial);
+  fprintf (f, " \"wall_timeouts\": %llu,\n", (unsigned long long) S.wall_timeouts);
   fprintf (f, " \"sub_evaluations\": %llu, \"sub_nontrivial\": %llu, \"excluded\": %llu, \"unstable\": %llu,\n",
       (unsigned long long) S.sub_evals, (unsigned long long) S.sub_nontrivial, (unsigned long long) S.excluded,
       (unsigned long long) S.unstable);
